@@ -2613,6 +2613,11 @@ class SlicedMemoryIO(object):
         :py:class:`bytes`
             Data read from SpiNNaker as a bytestring.
         """
+        # Nothing can be read from before the start of the region (e.g. after
+        # seeking to a negative offset)
+        if self._offset < 0:
+            return b''
+
         # If n_bytes is negative then calculate it as the number of bytes left
         if n_bytes < 0:
             n_bytes = self._end_address - self.address
@@ -2656,8 +2661,14 @@ class SlicedMemoryIO(object):
         int
             Number of bytes written.
         """
+        # Nothing can be written before the start of the region (e.g. after
+        # seeking to a negative offset)
+        if self._offset < 0:
+            return 0
+
         if self.address + len(bytes) > self._end_address:
-            n_bytes = self._end_address - self.address
+            # NB: may already be beyond the end of the region
+            n_bytes = max(0, self._end_address - self.address)
 
             warnings.warn("write truncated from {} to {} bytes".format(
                 len(bytes), n_bytes), TruncationWarning, stacklevel=3)
